@@ -75,7 +75,7 @@ def _sccs(lib):
     return out, graph
 
 
-@rule("R18.1", 5, "one depth constant (= 1024) at every set_max_depth site and at the size calculator's external call", ["C18"])
+@rule("R18.1", 4, "one depth constant (= 1024) at every set_max_depth site and at the size calculator's external call", ["C18"])
 def r18_1(ctx):
     lib = ctx.lib
     seen = set()
@@ -110,7 +110,7 @@ def r18_1(ctx):
     ctx.ob("single-constant", len(seen) == 1, "lib", f"depth constants in use: {sorted(map(str, seen))}")
 
 
-@rule("R18.2", 4, "every rmp_serde::Deserializer is configured with set_max_depth before its first use", ["C18"])
+@rule("R18.2", 3, "every rmp_serde::Deserializer is configured with set_max_depth before its first use", ["C18"])
 def r18_2(ctx):
     lib = ctx.lib
     n = 0
@@ -167,7 +167,7 @@ def r18_2(ctx):
                        "set_max_depth intervenes on every path from construction to this use" if ok else "an rmp_serde::Deserializer is used with its default (unconfigured) depth limit")
             if not users:
                 ctx.ob(f"configured-before-use:{b.name}:{i}:unused", bool(setters), site(b, bb), "deserializer constructed and configured", trivial=True)
-    ctx.ob("constructions", n >= 4, "lib", f"{n} rmp_serde::Deserializer construction(s)")
+    ctx.ob("constructions", n >= 2, "lib", f"{n} rmp_serde::Deserializer construction(s)")
 
 
 def _configures_on_entry(lib, callee, param, depth=0):
